@@ -169,11 +169,12 @@ def supply(rng, chunks, tmp):
     if mode == "files":
         paths = []
         for i, p in enumerate(parts):
-            fp = os.path.join(tmp, f"part{i}.sdl"); open(fp, "w").write("\n".join(p)); paths.append(fp)
+            fp = os.path.join(tmp, f"part{i}.sdl"); open(fp, "w").write("\n".join(p) + ("\n# end of part" if rng.random() < 0.5 else "")); paths.append(fp)
         return mode, paths
     d = os.path.join(tmp, "dir"); os.makedirs(os.path.join(d, "sub"), exist_ok=True)
     for i, p in enumerate(parts):
-        fp = os.path.join(d, "sub" if i % 2 else "", f"part{i}." + ("sdl" if i % 2 == 0 else "graphql")); open(fp, "w").write("\n".join(p))
+        # files end without a final newline, some of them with a comment line: concatenation must keep them apart
+        fp = os.path.join(d, "sub" if i % 2 else "", f"part{i}." + ("sdl" if i % 2 == 0 else "graphql")); open(fp, "w").write("\n".join(p) + ("\n# end of part" if rng.random() < 0.5 else ""))
     return mode, d
 
 _uid = itertools.count()
